@@ -3,9 +3,9 @@ package main
 // Per-function verification: entry state, body, postconditions, discharge.
 
 import (
-	"math/big"
 	"fmt"
 	"go/ast"
+	"math/big"
 	"os"
 	"path/filepath"
 	"runtime/debug"
@@ -43,12 +43,12 @@ func init() {
 }
 
 type FuncResult struct {
-	Key     string
-	Obls    []*Obligation
-	Err     string
-	Notes   []string
-	Secs    float64
-	Props   []string
+	Key   string
+	Obls  []*Obligation
+	Err   string
+	Notes []string
+	Secs  float64
+	Props []string
 }
 
 // VerifyFunction generates and returns the obligations of one function.
@@ -220,7 +220,7 @@ func (o *Obligation) SMT() string {
 	saved := x.reveal
 	if len(o.Reveal) > 0 {
 		x.hitSites = map[string]bool{}
-	x.reveal = map[string]bool{}
+		x.reveal = map[string]bool{}
 		for k, b := range saved {
 			x.reveal[k] = b
 		}
@@ -311,53 +311,74 @@ func (d *Discharger) Run(obls []*Obligation) {
 		go func() {
 			defer wg.Done()
 			for o := range ch {
-				fname := strings.NewReplacer("/", "_", "(", "", ")", "", "*", "", "$", "_", "#", "-", "@", "-").Replace(o.Name)
-				if o.FileID > 0 {
-					fname += fmt.Sprintf(".r%d", o.FileID)
-				}
-				// staged: fewer assumptions first (a refutation from a subset of the assumptions is
-				// a refutation), the full set last; only the full query can give a model
-				if !o.IsCanary && !d.All {
-					if o.smtQF != "" {
-						t := d.Timeout
-						if t > 5 {
-							t = 5
-						}
-						r := Solve(d.Dir, fname+".qf", o.smtQF, t, false)
-						if r.Answer == "unsat" {
-							r.Solver += " (quantifier-free part)"
-							o.Res = r
-							continue
-						}
-						if r.Answer == "sat" {
-							o.qfModel = r.Model
-						}
-					}
-					if o.smtLemmas != "" {
-						r := Solve(d.Dir, fname+".lemmas", o.smtLemmas, d.Timeout, false)
-						if r.Answer == "unsat" {
-							r.Solver += " (by the named assertions)"
-							o.Res = r
-							continue
-						}
-					}
-					if o.smtNear != "" {
-						r := Solve(d.Dir, fname+".near", o.smtNear, d.Timeout, false)
-						if r.Answer == "unsat" {
-							r.Solver += " (nearby quantified facts)"
-							o.Res = r
-							continue
-						}
-					}
-				}
-				t := d.Timeout
-				if o.IsCanary && t < 40 {
-					t = 40 // a model of a whole path can take one solver a while; nothing else waits for it
-				}
-				o.Res = Solve(d.Dir, fname, o.smtText, t, d.All)
+				t0 := time.Now()
+				d.solveOne(o)
+				o.Wall = time.Since(t0).Seconds()
 			}
 		}()
 	}
+	d.feed(obls, ch)
+	close(ch)
+	wg.Wait()
+	d.modelSearch(obls)
+}
+
+// solveOne discharges one obligation, fewer assumptions first.
+func (d *Discharger) solveOne(o *Obligation) {
+	for once := true; once; once = false {
+		fname := strings.NewReplacer("/", "_", "(", "", ")", "", "*", "", "$", "_", "#", "-", "@", "-").Replace(o.Name)
+		if o.FileID > 0 {
+			fname += fmt.Sprintf(".r%d", o.FileID)
+		}
+		// staged: fewer assumptions first (a refutation from a subset of the assumptions is
+		// a refutation), the full set last; only the full query can give a model
+		if !o.IsCanary && !d.All {
+			if o.smtQF != "" {
+				t := d.Timeout
+				if t > 5 {
+					t = 5
+				}
+				r := Solve(d.Dir, fname+".qf", o.smtQF, t, false)
+				if r.Answer == "unsat" {
+					r.Solver += " (quantifier-free part)"
+					o.Res = r
+					continue
+				}
+				if r.Answer == "sat" {
+					o.qfModel = r.Model
+				}
+			}
+			if o.smtLemmas != "" {
+				r := Solve(d.Dir, fname+".lemmas", o.smtLemmas, d.Timeout, false)
+				if r.Answer == "unsat" {
+					r.Solver += " (by the named assertions)"
+					o.Res = r
+					continue
+				}
+			}
+			if o.smtNear != "" {
+				tn := d.Timeout
+				if tn > 4 {
+					tn = 4 // a shortcut, not the last word: the full query follows
+				}
+				r := Solve(d.Dir, fname+".near", o.smtNear, tn, false)
+				if r.Answer == "unsat" {
+					r.Solver += " (nearby quantified facts)"
+					o.Res = r
+					continue
+				}
+			}
+		}
+		t := d.Timeout
+		if o.IsCanary && t < 40 {
+			t = 40 // a model of a whole path can take one solver a while; nothing else waits for it
+		}
+		o.Res = Solve(d.Dir, fname, o.smtText, t, d.All)
+	}
+}
+
+// feed renders the queries (not thread-safe, hence here) and hands the obligations to the workers.
+func (d *Discharger) feed(obls []*Obligation, ch chan *Obligation) {
 	for _, o := range obls {
 		if o.Goal.IsTrue() && !o.IsCanary {
 			o.Res = SolveResult{Answer: "unsat", Solver: "simplifier"}
@@ -399,8 +420,9 @@ func (d *Discharger) Run(obls []*Obligation) {
 		}
 		ch <- o
 	}
-	close(ch)
-	wg.Wait()
+}
+
+func (d *Discharger) modelSearch(obls []*Obligation) {
 	// model search: failed obligations without a model are retried with the
 	// quantified assumptions dropped; a model found this way is only a candidate
 	// (it is validated by replay on the real code).
